@@ -33,6 +33,7 @@ fn main() {
             "tapefail" => tape::run_fail(&fields[1..]),
             "run" => run::run(&fields[1..]),
             "runfail" => run::runfail(&fields[1..]),
+            "runnoas" => run::runnoas(&fields[1..]),
             "rung" => run::rung(&fields[1..]),
             "compilebc" => run::compilebc(&fields[1..]),
             "runbcmem" => run::runbcmem(&fields[1..]),
